@@ -461,6 +461,11 @@ class DefaultNodeIO(BaseNodeIO):
             )
             return
 
+        # Anything which may query the database (here: loading req.node_from)
+        # must happen before space is reserved: nothing would release the
+        # reservation if it failed afterwards.
+        task_name = f"AFCR#{req.id}: {req.node_from.name} -> {self.node.name}"
+
         # Check that there is enough space available (and reserve what we need)
         if not self.reserve_bytes(req.file.size_b):
             log.warning(
@@ -474,7 +479,7 @@ class DefaultNodeIO(BaseNodeIO):
             queue=self._queue,
             key=self.fifo,
             args=(self, self.tree_lock, req),
-            name=f"AFCR#{req.id}: {req.node_from.name} -> {self.node.name}",
+            name=task_name,
         )
 
     # This is the reservation fudge factor.  XXX Is it correct?
